@@ -46,7 +46,6 @@ func c15Scenario(s c15Spec) explore.Scenario {
 			c2s, s2c := NewVPipe("c2s"), NewVPipe("s2c")
 			conn := &vduplex{in: c2s, out: s2c}
 			var serve func() error
-			handles := make([]string, s.handles)
 			switch s.server {
 			case "rs":
 				h = newVHandler(false) // atomic backing-store operations (the property's precondition)
@@ -57,12 +56,6 @@ func c15Scenario(s c15Spec) explore.Scenario {
 					opts = append(opts, WithRSAllocator())
 				}
 				rs := NewRequestServer(conn, h.handlers(), opts...)
-				for i := range handles {
-					// white box: install an open read/write handle without the OPEN round trip
-					req := &Request{Method: "Open", Filepath: "/f"}
-					req.setWriterAtReaderAt(f)
-					handles[i] = rs.nextRequest(req)
-				}
 				serve = rs.Serve
 			case "os":
 				root = scratchDir()
@@ -71,16 +64,10 @@ func c15Scenario(s c15Spec) explore.Scenario {
 				if s.alloc {
 					opts = append(opts, WithAllocator())
 				}
+				opts = append(opts, WithServerWorkingDirectory(root))
 				sv, err := NewServer(conn, opts...)
 				if err != nil {
 					panic(err)
-				}
-				for i := range handles {
-					of, err := os.OpenFile(filepath.Join(root, "f"), os.O_RDWR, 0)
-					if err != nil {
-						panic(err)
-					}
-					handles[i] = sv.nextHandle(of)
 				}
 				serve = sv.Serve
 			}
@@ -94,9 +81,21 @@ func c15Scenario(s c15Spec) explore.Scenario {
 				c2s.CloseWrite()
 				return
 			}
+			// the handles are opened through the client API, so that whatever Client.open sets up in a
+			// File is part of the system under test
 			files := make([]*File, s.handles)
 			for i := range files {
-				files[i] = &File{c: c, path: "/f", handle: handles[i]}
+				name := "/f"
+				if s.server == "os" {
+					name = "f"
+				}
+				f, err := c.OpenFile(name, os.O_RDWR)
+				if err != nil {
+					bad = append(bad, "OpenFile: "+err.Error())
+					c.Close()
+					return
+				}
+				files[i] = f
 			}
 			results := make([][]lin.Op, len(s.callers))
 			var g vgroup
@@ -251,7 +250,7 @@ func init() {
 		Level: "model_checking",
 		Rule: "the instrumented client and the real server in one scheduled system, 2-3 caller goroutines x 1-2 single-packet operations (ReadAt/WriteAt of 2 bytes inside a 4-byte file, Stat) on one or two handles of the same file: " +
 			"all schedules with at most d deviations; every complete execution's call/return history (timestamps = scheduler step numbers) is checked by porcupine against the sequential byte-array model; distinct = distinct schedules",
-		Assumptions: []string{"backing store ReadAt/WriteAt atomic (one scheduling point each; for the os-backed server the kernel's pread/pwrite)", "W and deviation bounds as reported", "handles installed white-box to keep executions short"},
+		Assumptions: []string{"backing store ReadAt/WriteAt atomic (one scheduling point each; for the os-backed server the kernel's pread/pwrite)", "W and deviation bounds as reported", "handles are opened through Client.OpenFile before the callers start"},
 		Jobs: func(tier string) []reg.Job {
 			j := func(label, build, server, set string, bound, budget int, alloc bool) reg.Job {
 				a := map[string]string{"server": server, "set": set, "bound": fmt.Sprint(bound)}
